@@ -141,7 +141,8 @@ class Ctx:
         cov.update(self.extra)
         ev = dict(property_id=self.pid, tier=self.tier, seed=self.seed, level=level, coverage=cov,
                   assumptions=self.assumptions, wall_s=round(wall, 2), violations=len(new))
-        evdir = os.path.join(VERIF, ".scratch", "dev-evidence") if dev else os.path.join(VERIF, "evidence")
+        evdir = os.path.join(VERIF, ".scratch", "dev-evidence") if dev else \
+            os.path.join(VERIF, "conformance" if self.pid.startswith("X_") else "evidence")     # X_*: beyond the listed properties
         os.makedirs(evdir, exist_ok=True)
         if not self.replay:
             with open(os.path.join(evdir, f"{self.pid}.json"), "w") as f:
